@@ -127,6 +127,11 @@ func (k Keeper) AllocateTokensToStakers(ctx sdk.Context, operatorAddress sdk.Acc
 			logger.Debug("avs address lists not found; skipping")
 			continue
 		}
+		// a staker that delegated several assets of the AVS is found once per asset, but its
+		// USD value for the AVS already covers all of them: count it once per AVS, and keep one
+		// entry per staker. Otherwise the fractions below add up to more than one and more than
+		// the available reward is handed out (or the remaining amount turns negative).
+		seenForAVS := make(map[string]struct{})
 		for assetID := range avsAssets {
 			stakerList, err := k.StakingKeeper.GetStakersByOperator(ctx, operatorAddress.String(), assetID)
 			if err != nil {
@@ -134,11 +139,19 @@ func (k Keeper) AllocateTokensToStakers(ctx sdk.Context, operatorAddress sdk.Acc
 				continue
 			}
 			for _, staker := range stakerList.Stakers {
+				if _, ok := seenForAVS[staker]; ok {
+					continue
+				}
+				seenForAVS[staker] = struct{}{}
 				if curStakerPower, err := k.StakingKeeper.CalculateUSDValueForStaker(ctx, staker, avsAddress, operatorAddress.Bytes()); err != nil {
 					logger.Error("curStakerPower error", "error", err)
 				} else {
-					stakersPowerMap[staker] = curStakerPower
-					globalStakerAddressList = append(globalStakerAddressList, staker)
+					if prev, ok := stakersPowerMap[staker]; ok {
+						stakersPowerMap[staker] = prev.Add(curStakerPower)
+					} else {
+						stakersPowerMap[staker] = curStakerPower
+						globalStakerAddressList = append(globalStakerAddressList, staker)
+					}
 					curTotalStakersPowers = curTotalStakersPowers.Add(curStakerPower)
 				}
 			}
